@@ -450,6 +450,7 @@ type FuncContract struct {
 	Acquires  []string // mutexes held on return
 	OnLock    []ModItem // state guarded by a mutex without a lockinv: havocked when the function first locks it
 	OnLockText []string
+	VisitsAll []int     // loops that must not be left early (loop K visits_all)
 	RulesOnly bool      // trusted postconditions, body checked for call-site rules only
 	OpaqueMul bool      // products of non-literal terms are uninterpreted (mulTerm)
 	Forbids   []string  // callees the function must never call
@@ -679,6 +680,16 @@ func (cs *ContractSet) parseContractText(file, pkgPath string, lines []string, l
 			}
 			// loop K invariant [label:] expr
 			fs := strings.Fields(rest)
+			if len(fs) == 2 && fs[1] == "visits_all" {
+				// loop K visits_all: the loop is left only when its range (or condition) is exhausted -
+				// a break or return inside it is a failed obligation ("every element is considered")
+				k, err := strconv.Atoi(fs[0])
+				if err != nil {
+					return fmt.Errorf("%s:%d: bad loop ordinal", file, it.line)
+				}
+				cur.VisitsAll = append(cur.VisitsAll, k)
+				continue
+			}
 			if len(fs) < 3 {
 				return fmt.Errorf("%s:%d: bad loop clause", file, it.line)
 			}
